@@ -214,6 +214,7 @@ def check(ctx, rep):
     C11.rewritten_fields(ctx, rep, 'C07d')
     C11.twins(ctx, rep, 'C07e')
     C16.overlapped_rule(ctx, rep, 'C07f')
+    C16.early_rejects(ctx, rep, 'C07f')
     from . import C20 as _c20
     _c20.has_mods_coverage(ctx, rep, 'C07e')
     from . import C20
